@@ -80,6 +80,8 @@ typedef struct Node {
 	size_t efail_len;
 	/* draw log (for C18 oracles) */
 	uint16_t drawlen[512]; int ndrawlog;
+	/* first draws with their bytes (leak monitor: recognise ephemeral secrets) */
+	uint8_t drawbytes[160][48]; uint8_t drawbytes_len[160]; int ndrawbytes;
 } Node;
 
 typedef struct Sim {
